@@ -134,3 +134,22 @@ package types
 //@   loop 1 invariant acc: talliedVotingPower == trustTally(vals, commit, chainID, rangeindex + 1)
 //@   loop 1 invariant seen: forall(j, 0, rangeindex + 1, known(vals, commit, j) ==> has(seenVals, vidx(vals, commit, j)) && seenVals[vidx(vals, commit, j)] == j)
 //@   loop 1 invariant dist: distinctSigners(vals, commit, rangeindex + 1)
+
+// ---- C10: part sets ----
+
+//@ func PartSet.AddPart
+//@   requires ps != nil ==> len(ps.parts) == ps.total
+//@   ensures idx: result0 ==> part.Index < old(ps.total)
+//@   ensures empty: result0 ==> old(ps.parts[part.Index]) == nil
+//@   ensures pos: result0 ==> part.Proof.Index == part.Index && part.Proof.Total == ps.total
+//@   ensures proof: result0 ==> part.Proof.LeafHash == leafH(part.Bytes) && ps.hash == pathRoot(part.Proof.Index, part.Proof.Total, part.Proof.LeafHash, part.Proof.Aunts)
+//@   ensures stored: result0 ==> ps.parts[part.Index] == part && ps.count == (old(ps.count) + 1) % 4294967296 && ps.byteSize == old(ps.byteSize) + len(part.Bytes)
+//@   ensures noerr: result0 ==> result1 == nil
+//@   ensures untouched: !result0 ==> ps == nil || (ps.count == old(ps.count) && ps.byteSize == old(ps.byteSize))
+//@   checks bounds
+
+//@ func TxProof.Validate
+//@   ensures root: result == nil ==> dataHash == tp.RootHash
+//@   ensures idx: result == nil ==> 0 <= tp.Proof.Index && tp.Proof.Index < tp.Proof.Total
+//@   ensures leaf: result == nil ==> tp.Proof.LeafHash == leafH(tmhashSum(tp.Data))
+//@   ensures path: result == nil ==> dataHash == pathRoot(tp.Proof.Index, tp.Proof.Total, tp.Proof.LeafHash, tp.Proof.Aunts)
